@@ -385,106 +385,11 @@ func runC06(c *core.Ctx) {
 		}
 	})
 
-	c.Clause("D4", func() {
-		f := c.Fn(metap + ".(*storeFSM).Apply")
-		// registry: constants of internal.Command_Type
-		registry := map[string]bool{}
-		pkg := c.P.ByPath[metap+"/internal"]
-		c.Need(pkg != nil, "package services/meta/internal")
-		sc := pkg.Types.Scope()
-		for _, nm := range sc.Names() {
-			if k, ok := sc.Lookup(nm).(*types.Const); ok {
-				if nt, ok := k.Type().(*types.Named); ok && nt.Obj().Name() == "Command_Type" {
-					registry[k.Pkg().Name()+"."+k.Name()] = true
-				}
-			}
-		}
-		c.Floor("command type registry", len(registry), 33)
-		cases := map[string]bool{}
-		var all []*core.FuncInfo
-		all = append(all, f)
-		all = append(all, f.Lits...)
-		for _, g := range all {
-			for _, sw := range valueSwitches(g) {
-				hit := 0
-				for _, cs := range sw.cases {
-					if registry[cs] {
-						hit++
-					}
-				}
-				if hit >= 10 {
-					for _, cs := range sw.cases {
-						cases[cs] = true
-					}
-				}
-			}
-		}
-		c.Floor("Apply switch cases", len(cases), 30)
-		// validator table
-		table := map[string]bool{}
-		tv := c.P.LookupObj(metap, "commandExtensions")
-		hasTable := tv != nil
-		if hasTable {
-			for _, file := range c.P.ByPath[metap].Syntax {
-				ast.Inspect(file, func(nd ast.Node) bool {
-					vs, ok := nd.(*ast.ValueSpec)
-					if !ok || len(vs.Names) != 1 || c.P.ByPath[metap].TypesInfo.Defs[vs.Names[0]] != tv || len(vs.Values) != 1 {
-						return true
-					}
-					if cl, ok := vs.Values[0].(*ast.CompositeLit); ok {
-						for _, el := range cl.Elts {
-							if kv, ok := el.(*ast.KeyValueExpr); ok {
-								table[constName(c.P.ByPath[metap].TypesInfo, kv.Key)] = true
-							}
-						}
-					}
-					return true
-				})
-			}
-		}
-		var names []string
-		for k := range registry {
-			names = append(names, k)
-		}
-		sort.Strings(names)
-		for _, k := range names {
-			switch {
-			case cases[k] && (!hasTable || table[k]):
-				c.Check("apply-total-over-registry", f.Name+"/"+k, f.PosStr(), hasTable, "handled by Apply"+map[bool]string{true: " and accepted by the validator", false: ", but no validator table exists: a command without its extension still panics"}[hasTable])
-			case cases[k] && !table[k]:
-				c.Check("apply-total-over-registry", f.Name+"/"+k, f.PosStr(), true, "handled by Apply, rejected by the validator (never proposed)")
-			case !cases[k] && table[k]:
-				c.Check("apply-total-over-registry", f.Name+"/"+k, f.PosStr(), false, "the validator accepts "+k+" but storeFSM.Apply has no case for it: the default branch panics on every replica")
-			default:
-				c.Check("apply-total-over-registry", f.Name+"/"+k, f.PosStr(), hasTable, "no case in Apply; rejected by the validator")
-			}
-		}
-		for k := range table {
-			if !registry[k] {
-				c.Check("apply-total-over-registry", f.Name+"/"+k, f.PosStr(), false, "validator table mentions a constant outside the registry")
-			}
-		}
-		// the validator consults the table and rejects on a miss, and it dominates store.apply in serveExec
-		if hasTable {
-			vf := c.Fn(metap + ".validateCommand")
-			consults := false
-			ast.Inspect(vf.Body, func(nd ast.Node) bool {
-				if ix, ok := nd.(*ast.IndexExpr); ok {
-					if id, ok := ix.X.(*ast.Ident); ok && vf.Info().ObjectOf(id) == tv {
-						consults = true
-					}
-				}
-				return true
-			})
-			c.Check("validator-consults-table", vf.Name+"/commandExtensions[...]", vf.PosStr(), consults, "validateCommand must look the command type up in commandExtensions")
-			getExt := calleeIn(vf, "github.com/gogo/protobuf/proto.GetExtension")
-			c.Check("validator-checks-extension", vf.Name+"/proto.GetExtension", vf.PosStr(), len(vf.Graph().Find(evCall(getExt))) > 0,
-				"validateCommand must verify that the command carries the extension Apply will assert")
-		}
-		se := c.Fn(metap + ".(*handler).serveExec")
-		okRule(c, se, "validate-before-propose", "validateCommand", "store.apply", calleeIn(se, metap+".validateCommand"),
-			func(e *core.Event) bool { return e.Kind == core.EvCall && core.RecvFieldOf(e) == "handler.store" && e.Call.Fun.(*ast.SelectorExpr).Sel.Name == "apply" })
-	})
+	c.Clause("D4", func() { runApplyTotality(c) })
+
+	// a command applied to a clone must not reach the published value that snapshots and readers hold: otherwise a
+	// replica restored from a snapshot differs from the replicas that applied the log (shared with C07 D1 / C19 D4)
+	c.Clause("D8", func() { runCloneCompleteness(c) })
 
 	c.Clause("D5", func() { runTimePredicates(c) })
 
@@ -1201,4 +1106,107 @@ func assignIsMonotone(f *core.FuncInfo, as *ast.AssignStmt, v *types.Var) bool {
 		return true
 	})
 	return ok
+}
+
+// runApplyTotality: storeFSM.Apply is total over the command registry and the validator in front of it (shared by C06 and C07).
+func runApplyTotality(c *core.Ctx) {
+	f := c.Fn(metap + ".(*storeFSM).Apply")
+	// registry: constants of internal.Command_Type
+	registry := map[string]bool{}
+	pkg := c.P.ByPath[metap+"/internal"]
+	c.Need(pkg != nil, "package services/meta/internal")
+	sc := pkg.Types.Scope()
+	for _, nm := range sc.Names() {
+		if k, ok := sc.Lookup(nm).(*types.Const); ok {
+			if nt, ok := k.Type().(*types.Named); ok && nt.Obj().Name() == "Command_Type" {
+				registry[k.Pkg().Name()+"."+k.Name()] = true
+			}
+		}
+	}
+	c.Floor("command type registry", len(registry), 33)
+	cases := map[string]bool{}
+	var all []*core.FuncInfo
+	all = append(all, f)
+	all = append(all, f.Lits...)
+	for _, g := range all {
+		for _, sw := range valueSwitches(g) {
+			hit := 0
+			for _, cs := range sw.cases {
+				if registry[cs] {
+					hit++
+				}
+			}
+			if hit >= 10 {
+				for _, cs := range sw.cases {
+					cases[cs] = true
+				}
+			}
+		}
+	}
+	c.Floor("Apply switch cases", len(cases), 30)
+	// validator table
+	table := map[string]bool{}
+	tv := c.P.LookupObj(metap, "commandExtensions")
+	hasTable := tv != nil
+	if hasTable {
+		for _, file := range c.P.ByPath[metap].Syntax {
+			ast.Inspect(file, func(nd ast.Node) bool {
+				vs, ok := nd.(*ast.ValueSpec)
+				if !ok || len(vs.Names) != 1 || c.P.ByPath[metap].TypesInfo.Defs[vs.Names[0]] != tv || len(vs.Values) != 1 {
+					return true
+				}
+				if cl, ok := vs.Values[0].(*ast.CompositeLit); ok {
+					for _, el := range cl.Elts {
+						if kv, ok := el.(*ast.KeyValueExpr); ok {
+							table[constName(c.P.ByPath[metap].TypesInfo, kv.Key)] = true
+						}
+					}
+				}
+				return true
+			})
+		}
+	}
+	var names []string
+	for k := range registry {
+		names = append(names, k)
+	}
+	sort.Strings(names)
+	for _, k := range names {
+		switch {
+		case cases[k] && (!hasTable || table[k]):
+			c.Check("apply-total-over-registry", f.Name+"/"+k, f.PosStr(), hasTable, "handled by Apply"+map[bool]string{true: " and accepted by the validator", false: ", but no validator table exists: a command without its extension still panics"}[hasTable])
+		case cases[k] && !table[k]:
+			c.Check("apply-total-over-registry", f.Name+"/"+k, f.PosStr(), true, "handled by Apply, rejected by the validator (never proposed)")
+		case !cases[k] && table[k]:
+			c.Check("apply-total-over-registry", f.Name+"/"+k, f.PosStr(), false, "the validator accepts "+k+" but storeFSM.Apply has no case for it: the default branch panics on every replica")
+		default:
+			c.Check("apply-total-over-registry", f.Name+"/"+k, f.PosStr(), hasTable, "no case in Apply; rejected by the validator")
+		}
+	}
+	for k := range table {
+		if !registry[k] {
+			c.Check("apply-total-over-registry", f.Name+"/"+k, f.PosStr(), false, "validator table mentions a constant outside the registry")
+		}
+	}
+	// the validator consults the table and rejects on a miss, and it dominates store.apply in serveExec
+	if hasTable {
+		vf := c.Fn(metap + ".validateCommand")
+		consults := false
+		ast.Inspect(vf.Body, func(nd ast.Node) bool {
+			if ix, ok := nd.(*ast.IndexExpr); ok {
+				if id, ok := ix.X.(*ast.Ident); ok && vf.Info().ObjectOf(id) == tv {
+					consults = true
+				}
+			}
+			return true
+		})
+		c.Check("validator-consults-table", vf.Name+"/commandExtensions[...]", vf.PosStr(), consults, "validateCommand must look the command type up in commandExtensions")
+		getExt := calleeIn(vf, "github.com/gogo/protobuf/proto.GetExtension")
+		c.Check("validator-checks-extension", vf.Name+"/proto.GetExtension", vf.PosStr(), len(vf.Graph().Find(evCall(getExt))) > 0,
+			"validateCommand must verify that the command carries the extension Apply will assert")
+	}
+	se := c.Fn(metap + ".(*handler).serveExec")
+	okRule(c, se, "validate-before-propose", "validateCommand", "store.apply", calleeIn(se, metap+".validateCommand"),
+		func(e *core.Event) bool { return e.Kind == core.EvCall && core.RecvFieldOf(e) == "handler.store" && e.Call.Fun.(*ast.SelectorExpr).Sel.Name == "apply" })
+
 }
